@@ -87,7 +87,24 @@ def run(ctx):
                     if any(x in norm(d) for x in ("cache", "memo", "singledispatch")):
                         bad.append(f"{m.relpath}:{n.lineno}: @{norm(d)}")
     ctx.check("C18.R3", "no global / nonlocal statement and no caching decorator in the package", not bad, bad[0].rsplit(":", 1)[0] if bad else "", bad[0] if bad else "", "process-wide state shared by all threads")
-    cls_mut = [(ci, attr) for ci in p.all_classes() for attr, v in ci.class_attrs.items() if _mutable_display(v)]
+    # a class-level display is shared state only if something writes into it: a table that is only read is a constant
+    written_attrs = set()
+    for m in p.modules.values():
+        for n in ast.walk(m.tree):
+            tgt = None
+            if isinstance(n, ast.Subscript) and isinstance(n.ctx, (ast.Store, ast.Del)) and isinstance(n.value, ast.Attribute):
+                tgt = n.value.attr
+            elif isinstance(n, ast.Call) and isinstance(n.func, ast.Attribute) and n.func.attr in ("append", "extend", "insert", "add", "update", "setdefault", "pop", "popitem", "clear", "remove", "discard", "sort", "reverse", "appendleft") and isinstance(n.func.value, ast.Attribute):
+                tgt = n.func.value.attr
+            elif isinstance(n, ast.AugAssign) and isinstance(n.target, ast.Attribute):
+                tgt = n.target.attr
+            elif isinstance(n, (ast.Assign, ast.AnnAssign)) and not isinstance(m.tree, type(None)):
+                for t_ in (n.targets if isinstance(n, ast.Assign) else [n.target]):
+                    if isinstance(t_, ast.Attribute) and not (isinstance(t_.value, ast.Name) and t_.value.id == "self"):
+                        written_attrs.add(t_.attr)
+            if tgt is not None:
+                written_attrs.add(tgt)
+    cls_mut = [(ci, attr) for ci in p.all_classes() for attr, v in ci.class_attrs.items() if _mutable_display(v) and attr in written_attrs]
     ctx.check("C18.R3", "no mutable class-level attribute", not cls_mut, cls_mut[0][0].mod.relpath + ":" + cls_mut[0][0].name if cls_mut else "", f"{cls_mut[0][0].name}.{cls_mut[0][1]}" if cls_mut else "", "a mutable class attribute is shared by all instances in all threads")
     # ---- R4 interpreter- and process-wide settings ----------------------------------------------------------------------
     ctx.rule("C18.R4", "no call that changes an interpreter-wide or process-wide setting (recursion limit, trace hooks, ambient decimal context, locale, environment, working directory, global RNG seed, warning filters, default socket timeout, gc)", floor=1)
